@@ -406,8 +406,19 @@ def persistence(ctx):
     tmp = tempfile.mkdtemp(prefix="dfmon_c14_")
     try:
         # JSON side-car
-        fn = os.path.join(tmp, "f.ovf")
+        fn = os.path.join(tmp, gen.pick(rng, ["f.ovf", "state.omf", "run.0001.ovf", "m"]))
         mesh.save_subregions(fn)
+        if rng.random() < 0.5:
+            # a sibling file in the same directory (same stem, another suffix) gets a side-car
+            # of its own, with other subregions: each file keeps what belongs to it
+            _, regions2 = gen.rand_subregions(rng, spec, kmax=2)
+            try:
+                sib = spec.mesh(subregions={"sib_" + k: v for k, v in regions2.items()})
+                root = os.path.splitext(fn)[0]
+                sib.save_subregions(root + gen.pick(rng, [".vtk", ".ohf", ".h5x"]))
+                ctx.event("persist.sibling_file_with_same_stem")
+            except Exception:  # noqa: BLE001 - the sibling is not under test
+                pass
         other = spec.mesh()
         ok, _ = ctx.expect_ok("C14.persist.json.loads", other.load_subregions, fn,
                               what={"spec": spec.describe(), "boxes": boxes})
